@@ -727,7 +727,7 @@ def search_shm(run):
 
 PROPS['C05'] = {
     'modules': ['IpcModel.Props.C05'],
-    'theorems': ['C05.C05_contents', 'C05.C05_lifetime', 'C05.C05_zero', 'C05.C05_zero_reads_empty', 'C05.C05_order', 'C05.C05_many_in_order', 'C05.C05_lifetime_all', 'C05.C05_many_after_drops', 'C05.C05_shape',
+    'theorems': ['C05.C05_contents', 'C05.C05_lifetime', 'C05.C05_zero', 'C05.C05_zero_reads_empty', 'C05.C05_order', 'C05.C05_many_in_order', 'C05.C05_lifetime_all', 'C05.C05_many_after_drops', 'C05.C05_send_literal', 'C05.C05_shape',
                  'C05.size_is_length', 'Shm.inv_step', 'Shm.calls_step'],
     'builds': ['default', 'memfd', 'force-inprocess'],
     'scenarios': plus(shm_scen(['default', 'memfd'], 300, 8000), world_scen(['force-inprocess'], 100, 2000),
